@@ -695,6 +695,73 @@ fn verif_c05_owner() {
             }
         }
     }
+    // ---- honest echo: whatever the owner wrote (every local operation kind), a peer that synced
+    // from it never holds a more advanced copy, and further handshakes never change the owner
+    let ops = ["set", "set_with_ttl", "delete", "delete_after_ttl"];
+    let mut seqs: Vec<Vec<usize>> = vec![vec![]];
+    for len in 1..=3 {
+        let mut next = Vec::new();
+        for sq in seqs.iter().filter(|s| s.len() == len - 1) {
+            for o in 0..ops.len() {
+                let mut t = sq.clone();
+                t.push(o);
+                next.push(t);
+            }
+        }
+        seqs.extend(next);
+    }
+    for sq in &seqs {
+        let case = format!("honest echo after owner ops {:?}", sq.iter().map(|o| ops[*o]).collect::<Vec<_>>());
+        if let Some(rc) = replay_case() {
+            if rc != case {
+                continue;
+            }
+        }
+        r.evaluations += 1;
+        let mut a = mk(1);
+        let mut b = mk(2);
+        let me = a.self_chitchat_id().clone();
+        a.self_node_state().set("k", "v0");
+        for (i, o) in sq.iter().enumerate() {
+            let ns = a.self_node_state();
+            match ops[*o] {
+                "set" => ns.set("k", format!("v{}", i + 1)),
+                "set_with_ttl" => ns.set_with_ttl("k", format!("t{}", i + 1)),
+                "delete" => ns.delete("k"),
+                _ => ns.delete_after_ttl("k"),
+            }
+        }
+        let snapshot = |n: &Chitchat| {
+            let ns = n.node_state(&me).unwrap();
+            (
+                ns.last_gc_version(),
+                ns.max_version(),
+                ns.key_values_including_deleted().map(|(k, v)| (k.to_string(), v.value.clone(), v.version, v.is_deleted())).collect::<Vec<_>>(),
+            )
+        };
+        // the owner's namespace as its local API left it, before any gossip
+        let before = snapshot(&a);
+        hs(&mut b, &mut a);
+        hs(&mut b, &mut a);
+        if let Some(copy) = b.node_state(&me) {
+            if copy.max_version() > before.1 {
+                r.fail("copy-ahead-of-owner", format!("the peer's copy has max version {} > the owner's {}", copy.max_version(), before.1), case.clone());
+            }
+            for (k, vv) in copy.key_values_including_deleted() {
+                if vv.version > before.1 {
+                    r.fail("copy-ahead-of-owner", format!("the peer holds {k}@{} beyond the owner's max version {}", vv.version, before.1), case.clone());
+                }
+            }
+        }
+        r.nontrivial += 1;
+        hs(&mut b, &mut a);
+        hs(&mut a, &mut b);
+        hs(&mut b, &mut a);
+        let after = snapshot(&a);
+        if after != before {
+            r.fail("own-namespace-changed-by-echo", format!("owner state {:?} -> {:?}", before, after), case.clone());
+        }
+    }
     r.emit();
 }
 
